@@ -60,6 +60,9 @@ def gen_cases(rng, tier):
         yield gp.gen_e2e09_fit(rng, tier)
     for _ in range(sizes[3]):
         yield gp.gen_e2e09_acq(rng, tier)
+    # the multi-fidelity surrogate with independent GPs per rung level (appended: the cases above stay the same for a seed)
+    for _ in range(12 if tier == "quick" else 150):
+        yield gp.gen_e2e09_indep(rng, tier)
 
 
 def corpus():
@@ -77,7 +80,8 @@ def corpus():
     return out
 
 
-RUNNERS = {"exact09": gp.run_exact09, "heads": gp.run_heads, "e2e09_fit": gp.run_e2e09_fit, "e2e09_acq": gp.run_e2e09_acq}
+RUNNERS = {"exact09": gp.run_exact09, "heads": gp.run_heads, "e2e09_fit": gp.run_e2e09_fit, "e2e09_acq": gp.run_e2e09_acq,
+           "e2e09_indep": gp.run_e2e09_indep}
 
 
 def run_impl(spec):
